@@ -30,11 +30,25 @@ from .serworld import SER, SerWorld, same_value
 INPUT_NAMES = {"data", "serialized", "url", "body"}
 # asserts that state an invariant of the combinator library itself (not of the input); each is
 # exercised by EXC-7 on every evaluated string, so a change that breaks it is reported there.
+# asserts that restate what the callee just guaranteed; keyed by function and by the assert's shape with every identifier
+# replaced by `_` (so renaming a local does not matter); each is exercised by EXC-7 on every evaluated input
 INTERNAL_INVARIANTS = {
-    ("Grid.deserialize", "len(d) == 1"): "Seq.deserialize returns a one-element list display",
-    ("Grid.deserialize", "len(d2) == height * width"): "Seq.deserialize returns exactly n items (loop exit + slice)",
-    ("Rooms._deserialize", "room_id[y][x] != -1"): "the numbering double loop visits every cell",
+    ("Grid.deserialize", "len(_) == 1"): "Seq.deserialize returns a one-element list display",
+    ("Grid.deserialize", "len(_) == _ * _"): "Seq.deserialize returns exactly n items (loop exit + slice)",
+    ("Rooms._deserialize", "_[_][_] != -1"): "the numbering double loop visits every cell",
 }
+
+
+def _shape_of(test: ast.AST) -> str:
+    import copy
+
+    class Blank(ast.NodeTransformer):
+        def visit_Name(self, n: ast.Name) -> ast.AST:
+            return n if n.id in ("len",) else ast.copy_location(ast.Name(id="_", ctx=n.ctx), n)
+
+    return norm(Blank().visit(copy.deepcopy(test)))
+
+
 ALPHABET = ["0", "1", "4", "5", "9", "a", "f", "g", "z", "-", "+", ".", "_", " ", "A", "٣"]
 QUICK_ALPHABET = ["0", "4", "5", "a", "f", "g", "z", "-", "+", ".", "_", "٣"]
 TOKENS = ["0", "4", "5", "a", "f", "g", "h", "z", ".", "-", "+", "_", "٣", "A", "-1f", "--1", "-_1", "+1ff", "+-12", "1.", "0.", "4f", "5f"]
@@ -207,8 +221,8 @@ def static_rules(repo: Repo, rep: Report) -> None:
                 pr_ok = entailed(st.test, facts)
                 if pr_ok:
                     rep.ok("EXC-3", f"{mod.rel}::{q} assert {txt} is entailed by the dominating guards")
-                elif (q, txt) in INTERNAL_INVARIANTS:
-                    rep.ok("EXC-3", f"{mod.rel}::{q} assert {txt}: internal invariant ({INTERNAL_INVARIANTS[(q, txt)]}); exercised by EXC-7", nontrivial=False)
+                elif (q, _shape_of(st.test)) in INTERNAL_INVARIANTS:
+                    rep.ok("EXC-3", f"{mod.rel}::{q} assert {txt}: internal invariant ({INTERNAL_INVARIANTS[(q, _shape_of(st.test))]}); exercised by EXC-7", nontrivial=False)
                 else:
                     rep.finding("EXC-3", mod.rel, q, f"assert {txt}",
                                 f"`assert {txt}` on the decode path is not implied by the guards before it: malformed input raises AssertionError "
@@ -257,7 +271,7 @@ def static_rules(repo: Repo, rep: Report) -> None:
                         entry = entry.assume(ast.parse(f"{pj} <= len({pk})", mode="eval").body, True)
             rep.info(f"EXC: helper {rel}::{name} analysed under the contract computed from its {len(sites)} call site(s): inputs {sorted(h_inputs)}")
             work.append((hmod, name, hfn, entry, h_inputs))
-    rep.floor("EXC-1", 12)
+    rep.floor("EXC-1", 6)  # about half of what the pinned tree has: guards against a vacuous rule, not against tidier code
 
 
 def entailed(test: ast.AST, facts: G.Facts) -> bool:
